@@ -229,3 +229,16 @@ def run_project(dim):
     pr = gen_project(dim)
     c = configure(pr.files, pr.presets, pr.flat)
     return pr, c, Graph(c)
+
+
+FLAT_INDEX_CLASS = 'flat layout: one indexed output of a custom target used as a command ARGUMENT is written without meson-out/'
+FLAT_INDEX_LABELS = ('every input exists after configuration or is the output of another statement', 'a target output named in a command is a dependency of the statement',
+                     '@INPUT@ / @OUTPUT@ / @OUTPUT0@ become exactly the inputs and outputs of the statement')
+
+
+def classify(label, inputs):
+    """known-finding key (see known_findings.txt): --layout=flat AND custom_target(command : [..., A[i], ...])"""
+    d = {(k, n): v for k, n, v in inputs}
+    if d.get(('choice', 'layout')) == 1 and d.get(('choice', 'input of C')) == 4 and label in FLAT_INDEX_LABELS:
+        return FLAT_INDEX_CLASS
+    return label
